@@ -1202,6 +1202,20 @@ func (env *SpecEnv) call(e *Expr) (SpecVal, error) {
 			return SpecVal{T: Select(as[0].T, x)}, nil
 		}
 		return SpecVal{T: Store(as[0].T, x, True)}, nil
+	case "preexisting":
+		// preexisting(p): p points into an object that existed when the function under
+		// verification was entered (what is reachable from its inputs)
+		as, err := evalArgs()
+		if err != nil || len(as) != 1 || !vc.entryAlloc.Valid() {
+			return SpecVal{}, fmt.Errorf("preexisting(x): %v", err)
+		}
+		switch as[0].T.Sort {
+		case SRef:
+			return SpecVal{T: Lt(Rid(as[0].T), vc.entryAlloc)}, nil
+		case SSlice:
+			return SpecVal{T: Lt(Rid(SBase(as[0].T)), vc.entryAlloc)}, nil
+		}
+		return SpecVal{}, fmt.Errorf("preexisting() of %s", as[0].T.Sort)
 	case "allocated":
 		// allocated(p): p points into an object that exists now (what Go guarantees of every
 		// pointer a program holds; an invariant has to carry it through a havoc)
@@ -1627,6 +1641,19 @@ func (env *SpecEnv) callPure(pf *PureFunc, args []*Expr) (SpecVal, error) {
 			v.Ty = ty
 		}
 		sub.vars[p.Name] = v
+	}
+	// the body is written in the vocabulary of the package that declares the function
+	if pf.PkgPath != "" && pf.PkgPath != env.pkgPath() {
+		if tp := env.vc.ctx.typesPkg(pf.PkgPath); tp != nil {
+			sub.pkg = tp
+			// only the parameters are in scope, not the caller's variables
+			vars := map[string]SpecVal{}
+			for _, p := range pf.Params {
+				vars[p.Name] = sub.vars[p.Name]
+			}
+			sub.vars = vars
+			sub.lookup, sub.lookupAddr, sub.shadow = nil, nil, nil
+		}
 	}
 	r, err := sub.Eval(pf.Body)
 	env.assumes = append(env.assumes, sub.assumes...)
